@@ -26,6 +26,7 @@ PROPS_A = "TfelVerif.C17.Props"
 K_MIN = "FixedSizeRowMajorMatrixIndexingPolicy::getUnderlyingArrayMinimalSize:Stride!=M"
 K_ARR = "FixedSizeIndexingPoliciesCartesianProduct::getIndex(array):second-policy-arity-0"
 K_DIV = "operator/=:integer-scalar"
+K_SCAL = "scalar-operand:element-of-destination"
 K_COMPAT = "checkIndexingPoliciesCompatiblity:extent-mismatch"
 # request kinds of harness/C17/indices.cxx answered by the same model request (second overloads / const overloads /
 # derivative views of tmatrix.ixx, which address sub-blocks of the matrix)
@@ -270,6 +271,8 @@ def hazard_key(P):
         bad = [h for h in hz if h in BAD_HAZARDS]
         if bad:
             return "aliasing:" + bad[0]
+    if (getattr(P, "tag", None) or "").startswith("scalar-alias") or "scalar:element" in P.ops:
+        return K_SCAL
     if getattr(P, "tag", None):
         return "eager:" + P.tag
     if any(op == "/=" and re.search(r"/= -?\d+;$", cxx) for (cxx, _, op, _) in P.stmts):
@@ -356,6 +359,8 @@ def run(ck):
                      % (" ".join(s[0] for s in P.stmts), f["output"], f["code_value_exact"], f["spec_value_exact"],
                         " (the lazy right-hand side reads an already overwritten cell)" if key.startswith("aliasing:") else
                         " (`x /= s` multiplies by `1 / s`, computed in the type of `s`: 0 for an integer; fixed in /repo by 92c9bba5d, see patches/C17-divide-by-integer-scalar.diff)" if key == K_DIV else
+                        " (a scalar operand living in the destination's storage must be read once, before the assignment: "
+                        "ExprBase::ArgumentStorage keeps scalars by value)" if key == K_SCAL else
                         " (no harmful aliasing in this program: the expression templates or a view's cell map are wrong)"), rep, True)
     if not res.ok:
         # a program obligation that no longer checks: look for a failing input of that program (same key as a
